@@ -379,6 +379,40 @@ enum Bi {
     Cmp(Vec<Cmp>),
     OtherInfix, // `++`
     OtherCall,  // `max(…)`
+    FloorDiv,   // `//` (level of `*`, no destructure)
+    Mod,        // `%`
+}
+impl Bi {
+    /// infix spelling inside an operator chain
+    fn infix(&self) -> String {
+        match self {
+            Bi::Plus => "+".into(),
+            Bi::Minus => "-".into(),
+            Bi::Times => "*".into(),
+            Bi::Divide => "/".into(),
+            Bi::Append => "+.".into(),
+            Bi::Prepend => ".+".into(),
+            Bi::Cmp(ops) => ops[0].src().into(),
+            Bi::OtherInfix => "++".into(),
+            Bi::FloorDiv => "//".into(),
+            Bi::Mod => "%".into(),
+            Bi::OtherCall => "max".into(),
+        }
+    }
+    fn proto(&self) -> String {
+        match self {
+            Bi::Plus => "plus".to_string(),
+            Bi::Minus => "minus".into(),
+            Bi::Times => "times".into(),
+            Bi::Divide => "divide".into(),
+            Bi::Append => "append".into(),
+            Bi::Prepend => "prepend".into(),
+            Bi::Cmp(ops) => format!("cmp:{}", ops.iter().map(|o| o.proto()).collect::<Vec<_>>().join(":")),
+            Bi::OtherInfix => "other4".into(),
+            Bi::FloorDiv | Bi::Mod => "other5".into(),
+            Bi::OtherCall => "other0".into(),
+        }
+    }
 }
 /// one step of an index path
 #[derive(Clone, Debug, PartialEq)]
@@ -421,6 +455,8 @@ enum P {
     Lit(V),
     Destr(Bi, Vec<P>),
     Struct(usize, Vec<P>),
+    /// an unparenthesised infix operator chain `p0 f1 p1 f2 p2 …` (grouped by the interpreter)
+    Chain(Box<P>, Vec<(Bi, P)>),
 }
 impl P {
     /// source text of the pattern as a self-delimiting "single" expression
@@ -476,10 +512,20 @@ impl P {
                         s
                     }
                     Bi::OtherInfix => format!("({} ++ {})", a[0], a[1]),
+                    Bi::FloorDiv => format!("({} // {})", a[0], a[1]),
+                    Bi::Mod => format!("({} % {})", a[0], a[1]),
                     Bi::OtherCall => format!("max({})", a.join(", ")),
                 }
             }
             P::Struct(s, args) => format!("S{}({})", s, args.iter().map(|p| p.src()).collect::<Vec<_>>().join(", ")),
+            P::Chain(first, ops) => {
+                let mut t = format!("({}", first.src());
+                for (b, q) in ops {
+                    t.push_str(&format!(" {} {}", b.infix(), q.src()));
+                }
+                t.push(')');
+                t
+            }
         }
     }
     fn proto(&self) -> String {
@@ -502,19 +548,12 @@ impl P {
             P::Or(a, b) => format!("O({},{})", a.proto(), b.proto()),
             P::And(a, b) => format!("N({},{})", a.proto(), b.proto()),
             P::Lit(v) => format!("V({})", v.proto()),
-            P::Destr(b, args) => {
-                let name = match b {
-                    Bi::Plus => "plus".to_string(),
-                    Bi::Minus => "minus".into(),
-                    Bi::Times => "times".into(),
-                    Bi::Divide => "divide".into(),
-                    Bi::Append => "append".into(),
-                    Bi::Prepend => "prepend".into(),
-                    Bi::Cmp(ops) => format!("cmp:{}", ops.iter().map(|o| o.proto()).collect::<Vec<_>>().join(":")),
-                    Bi::OtherInfix | Bi::OtherCall => "other".into(),
-                };
-                format!("B{}({})", name, list(args))
-            }
+            P::Destr(b, args) => format!("B{}({})", b.proto(), list(args)),
+            P::Chain(first, ops) => format!(
+                "H({}{})",
+                first.proto(),
+                ops.iter().map(|(b, q)| format!(";{},{}", b.proto(), q.proto())).collect::<String>()
+            ),
             P::Struct(s, args) => format!("C{}({})", s, list(args)),
         }
     }
@@ -524,6 +563,7 @@ impl P {
             P::Anno(p, _) | P::Default(p, _) | P::Splat(p) => p.has_or(),
             P::And(a, b) => a.has_or() || b.has_or(),
             P::Seq(ps, _) | P::Destr(_, ps) | P::Struct(_, ps) => ps.iter().any(|p| p.has_or()),
+            P::Chain(f, ops) => f.has_or() || ops.iter().any(|(_, q)| q.has_or()),
             _ => false,
         }
     }
@@ -533,6 +573,7 @@ impl P {
             P::Anno(p, _) | P::Default(p, _) | P::Splat(p) => p.has_lit(),
             P::And(a, b) | P::Or(a, b) => a.has_lit() || b.has_lit(),
             P::Seq(ps, _) | P::Destr(_, ps) | P::Struct(_, ps) => ps.iter().any(|p| p.has_lit()),
+            P::Chain(f, ops) => f.has_lit() || ops.iter().any(|(_, q)| q.has_lit()),
             _ => false,
         }
     }
@@ -570,6 +611,7 @@ impl P {
                 }
             ),
             P::Struct(..) => "struct".into(),
+            P::Chain(_, ops) => format!("chain:{}", ops.iter().map(|(b, _)| b.infix()).collect::<Vec<_>>().join("")),
         }
     }
     fn shape_short(&self) -> String {
@@ -941,6 +983,103 @@ impl Gen {
         P::Destr(Bi::Cmp(ops), args)
     }
 }
+
+/// An infix operator pattern with 2-3 operators of different precedence levels (comparison < `+ - .+ +. ++`
+/// < `* / // %`), literals and one or two binders, together with a value: mostly one that the pattern
+/// accepts when it is grouped as the expression of the same text is, sometimes a neighbour.
+fn chain_case(rng: &mut Rng, g: &mut Gen, lit_ok: bool) -> (P, V) {
+    let lit = |n: i128| P::Lit(V::Int(n));
+    let a = rng.range(1, 4) as i128;
+    let b = rng.range(0, 4) as i128;
+    let k = rng.range(0, 6) as i128;
+    let off = *rng.pick(&[0i128, 0, 0, 1, -1, 2]);
+    let cmp1 = |c: Cmp| Bi::Cmp(vec![c]);
+    if !lit_ok {
+        // literal-free (lambda parameters, `for`): list and rational shapes
+        return match rng.below(5) {
+            0 => {
+                let (x, y, t) = (g.name(rng), g.name(rng), g.name(rng));
+                (P::Chain(Box::new(x), vec![(Bi::Divide, y), (Bi::Prepend, t)]), V::List(vec![V::Rat(3, 4), V::Int(1)]))
+            }
+            1 => {
+                let (h, t, l) = (g.name(rng), g.name(rng), g.name(rng));
+                (P::Chain(Box::new(h), vec![(Bi::Prepend, t), (Bi::Append, l)]), V::List(vec![V::Int(1), V::Int(2), V::Int(3)]))
+            }
+            2 => {
+                let (t, x, y) = (g.name(rng), g.name(rng), g.name(rng));
+                (P::Chain(Box::new(t), vec![(Bi::Append, x), (Bi::Divide, y)]), V::List(vec![V::Int(1), V::Rat(5, 2)]))
+            }
+            3 => {
+                let (x, y, t) = (g.name(rng), g.name(rng), g.name(rng));
+                (P::Chain(Box::new(x), vec![(cmp1(Cmp::Lt), y), (Bi::Prepend, t)]), V::List(vec![V::Int(1), V::List(vec![V::Int(2)])]))
+            }
+            _ => {
+                let (x, y, z) = (g.name(rng), g.name(rng), g.name(rng));
+                (P::Chain(Box::new(x), vec![(Bi::Times, y), (Bi::Plus, z)]), V::Int(7))
+            }
+        };
+    }
+    let x = g.name(rng);
+    match rng.below(16) {
+        0 | 1 => (P::Chain(Box::new(x), vec![(Bi::Times, lit(a)), (Bi::Plus, lit(b))]), V::Int(k * a + b + off)),
+        2 | 3 => (P::Chain(Box::new(lit(b)), vec![(Bi::Plus, x), (Bi::Times, lit(a))]), V::Int(b + k * a + off)),
+        4 => (P::Chain(Box::new(lit(a)), vec![(Bi::Times, x), (Bi::Plus, lit(b))]), V::Int(a * k + b + off)),
+        5 => (P::Chain(Box::new(lit(b)), vec![(cmp1(Cmp::Lt), x), (Bi::Plus, lit(a))]), V::Int(b - a + 1 + off)),
+        6 => (P::Chain(Box::new(x), vec![(Bi::Plus, lit(a)), (cmp1(rng.pick(&[Cmp::Lt, Cmp::Le, Cmp::Ne]).clone()), lit(a + k + 1))]), V::Int(a + k + off)),
+        7 => (
+            P::Chain(Box::new(lit(b)), vec![(cmp1(Cmp::Le), x), (Bi::Times, lit(a)), (cmp1(Cmp::Lt), lit(b + 20))]),
+            V::Int(b.max(0) + k * a + off),
+        ),
+        8 => (
+            P::Chain(Box::new(lit(b)), vec![(Bi::Plus, x), (Bi::Times, lit(a)), (Bi::Plus, lit(1))]),
+            V::Int(b + k * a + 1 + off),
+        ),
+        9 => {
+            // two binders: `x * a + y` cannot be solved (no literal operand for `+`): must raise
+            let y = g.name(rng);
+            (P::Chain(Box::new(x), vec![(Bi::Times, lit(a)), (Bi::Plus, y)]), V::Int(k * a + b))
+        }
+        10 => {
+            // operators without a `destructure` at a different level: raise, whatever the grouping
+            let op = rng.pick(&[Bi::FloorDiv, Bi::Mod, Bi::Minus, Bi::OtherInfix]).clone();
+            let second = if matches!(op, Bi::FloorDiv | Bi::Mod) { Bi::Plus } else { Bi::Times };
+            (P::Chain(Box::new(x), vec![(op, lit(a)), (second, lit(b))]), V::Int(k))
+        }
+        11 => {
+            // rationals: `x / y + 1`
+            let y = g.name(rng);
+            let q = rng.range(2, 5);
+            (P::Chain(Box::new(x), vec![(Bi::Divide, y), (Bi::Plus, lit(1))]), V::Rat(rng.range(1, 9) + q, q))
+        }
+        12 => {
+            // lists: `x + a .+ t` (element arithmetic inside a cons pattern)
+            let t = g.name(rng);
+            (P::Chain(Box::new(x), vec![(Bi::Plus, lit(a)), (Bi::Prepend, t)]), V::List(vec![V::Int(k + a + off.min(0)), V::Int(9)]))
+        }
+        13 => {
+            let (t, l) = (g.name(rng), g.name(rng));
+            (P::Chain(Box::new(x), vec![(Bi::Prepend, t), (Bi::Append, l)]), V::List((0..2 + rng.below(3)).map(|i| V::Int(i as i128)).collect()))
+        }
+        14 => {
+            // `t +. x * a`: the last element is a multiple of a
+            let t = g.name(rng);
+            (P::Chain(Box::new(t), vec![(Bi::Append, x), (Bi::Times, lit(a))]), V::List(vec![V::Int(0), V::Int(k * a + off.max(0))]))
+        }
+        _ => {
+            // free-form: 2-3 random operators over literals and binders
+            let pool = [Bi::Plus, Bi::Times, Bi::Plus, Bi::Times, Bi::Divide, Bi::Minus, Bi::FloorDiv, Bi::Prepend, Bi::Append, Bi::Cmp(vec![Cmp::Lt]), Bi::Cmp(vec![Cmp::Le]), Bi::Cmp(vec![Cmp::Eq])];
+            let n = 2 + rng.below(2) as usize;
+            let mut ops = vec![];
+            for _ in 0..n {
+                let o = rng.pick(&pool).clone();
+                let q = if rng.chance(1, 3) { g.name(rng) } else { lit(rng.range(0, 5) as i128) };
+                ops.push((o, q));
+            }
+            (P::Chain(Box::new(x), ops), if rng.chance(1, 4) { V::List(vec![V::Int(k), V::Int(a)]) } else { V::Int(k * a + b) })
+        }
+    }
+}
+
 fn gen_cmp(rng: &mut Rng) -> Cmp {
     rng.pick(&[Cmp::Lt, Cmp::Le, Cmp::Gt, Cmp::Ge, Cmp::Eq, Cmp::Ne, Cmp::Lt, Cmp::Le]).clone()
 }
@@ -1382,7 +1521,26 @@ fn gen_pattern_case(rng: &mut Rng) -> Case {
         env.push((x, t, val));
     }
     let mut g = Gen { next: 0, no_lit: false, existing: assign_ctx };
+    // about one case in seven is an unparenthesised operator chain mixing precedence levels
+    let mut v = v;
+    let mut forced: Option<P> = None;
+    if rng.chance(1, 7) {
+        let lit_ok = !(70..80).contains(&ctx) && ctx < 90;
+        let (p, cv) = chain_case(rng, &mut g, lit_ok);
+        // sometimes nested in a sequence or under an annotation
+        let (p, cv) = match rng.below(6) {
+            0 => (P::Seq(vec![p, P::Underscore], false), V::List(vec![cv, V::Int(0)])),
+            1 if lit_ok => (P::Or(Box::new(P::Lit(V::Int(-1))), Box::new(p)), cv),
+            _ => (p, cv),
+        };
+        forced = Some(p);
+        v = cv;
+    }
+    let forced_cell = std::cell::RefCell::new(forced);
     let pat_for = |g: &mut Gen, rng: &mut Rng, v: &V| -> P {
+        if let Some(p) = forced_cell.borrow_mut().take() {
+            return p;
+        }
         fix_minus(match rng.below(20) {
             0..=13 => g.pat_for(rng, v, depth),
             14..=17 => {
@@ -1447,11 +1605,16 @@ fn gen_pattern_case(rng: &mut Rng) -> Case {
     } else if ctx < 80 {
         // lambda parameters against an argument list
         g.no_lit = true;
-        let args: Vec<V> = match &v {
-            V::List(xs) => xs.clone(),
-            other => vec![other.clone()],
+        let chain_param = forced_cell.borrow_mut().take();
+        let args: Vec<V> = match (&v, &chain_param) {
+            (_, Some(_)) => vec![v.clone()],
+            (V::List(xs), None) => xs.clone(),
+            (other, None) => vec![other.clone()],
         };
-        let mut params: Vec<P> = g.seq_items(rng, &args, depth.max(1)).into_iter().map(fix_minus).collect();
+        let mut params: Vec<P> = match chain_param {
+            Some(p) => vec![p],
+            None => g.seq_items(rng, &args, depth.max(1)).into_iter().map(fix_minus).collect(),
+        };
         // parameter syntax: core [: T] [= default]; no literals; normalise what the syntax cannot say
         params = params
             .into_iter()
@@ -1665,7 +1828,7 @@ fn main() {
                 identifiers, underscore, annotations with every builtin type / struct types / satisfying types / non-types, \
                 defaults, (un)delimited sequences with a splat at every position (plain and annotated), trailing defaults, \
                 wrong lengths, two splats, non-default after default, or / and, literals (incl. literally), every destructuring \
-                builtin (+ - * / .+ +. comparison chains, a non-destructuring builtin), struct patterns; x values of every kind \
+                builtin (+ - * / .+ +. comparison chains, a non-destructuring builtin), unparenthesised infix operator patterns with 2-3 operators of different precedence levels (comparisons, + - .+ +. ++, * / // %) over literals and one or two binders, struct patterns; x values of every kind \
                 (null, small/big ints, rationals incl. integral ones, floats incl. nan/inf/-0.0, complex, ASCII and non-ASCII strings, \
                 lists, dicts, vectors, bytes, finite and infinite streams, functions, types, struct instances); x binding contexts \
                 (switch arms, `:=` / `: T =`, `=` on typed existing variables incl. index paths, lambda parameters, catch, for). \
